@@ -13,7 +13,7 @@ from vmon.libutil import monitored, xtce_element
 
 LEVEL = "exploration"
 SHARDS = {"quick": 16, "thorough": 16}
-MUST = ["sequence.cases", "len.lookup-zero", "len.fractional-reference", "string.whole", "string.term", "string.lead", "binary", "len.fixed", "len.dyn", "len.lookup", "len.zero", "len.not-multiple-of-8",
+MUST = ["string.term_several_code_units", "route.rewritten_ok", "sequence.cases", "len.lookup-zero", "len.fractional-reference", "string.whole", "string.term", "string.lead", "binary", "len.fixed", "len.dyn", "len.lookup", "len.zero", "len.not-multiple-of-8",
         "offset.unaligned", "charset.multi", "charset.single", "route.ctor", "route.xml", "expected.errors", "dyn.calibrated", "dyn.raw"]
 RULE = ("case = (string/binary encoding IR, values of the referenced length parameters, content bits, bit offset, "
         "construction route). Directed grid: 8 concrete character sets (+ generic UTF-16/UTF-32 with byteOrder) x "
@@ -27,7 +27,19 @@ ASSUMPTIONS = ["size tag + text running into the padding bits, and terminator ma
                "computed lengths are integral by construction; negative lengths are C14's business"]
 
 CHARSETS = ["US-ASCII", "ISO-8859-1", "Windows-1252", "UTF-8", "UTF-16LE", "UTF-16BE", "UTF-32LE", "UTF-32BE"]
-TERMS = {"\x00": "NUL", ";": "semi", "X": "X"}
+TERMS = {"\x00": "NUL", ";": "semi", "X": "X", "\u00a7": "sect", "\u20ac": "euro", "\U0001F600": "astral"}
+
+
+def term_for(rng, charset):
+    """a termination character (hex of its encoded form) the charset can express: single code unit ones and ones that take
+    several code units (2-4 bytes in UTF-8, a surrogate pair in UTF-16)"""
+    ok = []
+    for ch in TERMS:
+        try:
+            ok.append(ch.encode(ref.PY_CODEC[charset]).hex())
+        except UnicodeEncodeError:
+            pass
+    return rng.choice(ok)
 
 
 def lenclass(L):
@@ -39,6 +51,21 @@ def make(ctx, rng, t, route):
     ctx.count(f"route.{route}")
     if route == "ctor":
         return build.ptype(t)
+    if route == "rewritten":
+        # a third way of obtaining the same parser: the constructor-built type written by the library's own to_xml and loaded
+        # again (a definition that went through write_xml). If writing fails that is C09's business: fall back to "ctor".
+        import lxml.etree as ET
+        from lxml.builder import ElementMaker
+        from vmon.libutil import XTCE_NS
+        try:
+            el0 = build.ptype(t).to_xml(elmaker=ElementMaker(namespace=XTCE_NS, nsmap={"xtce": XTCE_NS}))
+            el = xtce_element(ET.tostring(el0).decode())
+            ctx.count("route.rewritten_ok")
+            return getattr(T, ir.KIND_TAG[t.kind]).from_xml(el)
+        except Exception as ex:  # noqa: BLE001
+            ctx.count("route.rewritten_unavailable")
+            ctx.note(f"rewritten route unavailable for {t.enc!r}: {ex!r}")
+            return build.ptype(t)
     el = xtce_element(render.render_fragment(render.type_el(t, render.Opts(explicit=None, rng=rng))))
     return getattr(T, ir.KIND_TAG[t.kind]).from_xml(el)
 
@@ -178,7 +205,7 @@ def hostile_contents(rng, enc, L):
 
 def run(ctx):
     rng = ctx.rng("c07")
-    routes = ("ctor", "xml")
+    routes = ("ctor", "xml", "rewritten")
     item = 0
     lengths = [0, 1, 7, 8, 9, 16, 21, 24, 32, 40, 64, 96, 128]
     # ---- strings: directed grid --------------------------------------------------------------------------------------
@@ -194,7 +221,9 @@ def run(ctx):
                         continue   # a FIXED size of 0 bits is degenerate (rejected at construction); 0 via references is driven
                     term = lead = None
                     if delim == "term":
-                        term = rng.choice(list(TERMS)).encode(ref.PY_CODEC[charset]).hex()
+                        term = term_for(rng, charset)
+                        if len(bytes.fromhex(term)) > unit:
+                            ctx.count("string.term_several_code_units")
                     if delim == "lead":
                         lead = rng.choice([3, 8, 16, 5])
                     enc = ir.StrEnc(charset, spec, term, lead)
@@ -207,7 +236,7 @@ def run(ctx):
                     contents = [("plain", gen.string_bits(rng, enc, L)) for _ in range(2)] + hostile_contents(rng, enc, L)
                     for ci, (hname, fb) in enumerate(contents):
                         for offset in (range(8) if ci == 0 else (rng.randrange(8),)):
-                            route = routes[(offset + ci) % 2]
+                            route = routes[(offset + ci) % 3]
                             run_case(ctx, rng, t, libs[route], assign, fb, offset, route, hname)
                     if item < 30 and L == 24:
                         ctx.sample({"encoding": repr(enc), "assign": assign, "content_bits": contents[0][1]})
@@ -242,7 +271,7 @@ def run(ctx):
             libs = {r: make(ctx, rng, t, r) for r in routes}
             for offset in range(8):
                 fb = rng.choice(["0" * L, "1" * L, "".join(rng.choice("01") for _ in range(L))])
-                route = routes[offset % 2]
+                route = routes[offset % 3]
                 run_case(ctx, rng, t, libs[route], assign, fb, offset, route)
     # ---- sequences on ONE parameter-type object: lookups / references resolve per packet, nothing may be remembered ----------
     lk = ir.Lookup((((ir.Comparison("MODE", "2"),), 32), ((ir.Comparison("MODE", "1", ">=", False),), 16), ((ir.Comparison("FLAG", "ON"),), 8)))
@@ -283,12 +312,12 @@ def run(ctx):
             L = rng.choice([8 * unit * rng.randrange(0, 12), rng.randrange(0, 100)])
             spec, assign = rng.choice([v for v in length_variants(rng, L, 8 * unit) if v[0] != 0])
             delim = rng.choice(("whole", "term", "lead"))
-            enc = ir.StrEnc(charset, spec, rng.choice(list(TERMS)).encode(ref.PY_CODEC[charset]).hex() if delim == "term" else None,
+            enc = ir.StrEnc(charset, spec, term_for(rng, charset) if delim == "term" else None,
                             rng.choice([3, 5, 8, 12, 16]) if delim == "lead" else None)
             t = ir.PType("T", "string", enc, None)
             hs = hostile_contents(rng, enc, L)
             fb = rng.choice(hs)[1] if hs and rng.random() < 0.2 else gen.string_bits(rng, enc, L)
-        route = routes[i % 2]
+        route = routes[i % 3]
         try:
             lib = make(ctx, rng, t, route)
         except Exception as ex:  # noqa: BLE001
